@@ -64,15 +64,22 @@ def decide(prop, mod, merged, tier, seed, wall_s, print_fn=print):
         inconclusive.append('no executions observed')
     if len(merged['nt']) < 2:
         inconclusive.append('fewer than 2 distinct non-trivial cases')
-    # anchor-coverage gate
+    # anchor-coverage gate.  Per-function hits are EVIDENCE (function names are
+    # internal: a correct refactoring may rename them); the gate itself is on
+    # the anchored FILE: if no function of it ran at all, the workload did not
+    # reach the code the property is anchored in.
     anchors_hit = {}
     for f, funcs in getattr(mod, 'ANCHOR_FUNCS', {}).items():
         got = merged['coverage'].get(f, {})
         for q in funcs:
             anchors_hit[f'{f}::{q}'] = got.get(q, 0)
             if got.get(q, 0) == 0:
-                inconclusive.append(f'anchored function never executed: '
-                                    f'{f}::{q}')
+                merged['notes'].append(
+                    f'anchored function not seen under this name: {f}::{q}')
+        if not got and os.path.exists(os.path.join(
+                bootstrap.repo_root(), f)):
+            inconclusive.append(f'no function of the anchored file {f} was '
+                                f'executed')
 
     # replay files for violations (first 10)
     os.makedirs(REPLAY_DIR, exist_ok=True)
